@@ -205,6 +205,20 @@ def eval_path(case):
 LEN = {"bare32": 32, "bare40": 40, "bare64": 64, "bare48": 48, "bare0": 0, "bare31": 31, "bare33": 33, "bare41": 41, "bare65": 65}
 
 
+LEGACY = """[general]
+family = Older
+version = 6
+arch = x86_64
+variant = Legacy
+timestamp = 1386857206.0
+packagedir = Packages
+[images-x86_64]
+kernel = images/pxeboot/vmlinuz
+[checksums]
+images/pxeboot/vmlinuz = sha256:%s
+""" % ("9" * 64)
+
+
 def eval_section(case):
     from . import corruptions as K
     from productmd.treeinfo import TreeInfo
@@ -247,6 +261,27 @@ def eval_section(case):
     got2 = {k: tuple(v) for k, v in t2.checksums.checksums.items()}
     if got2 != exp:
         return ["%s: after a write/read cycle %s, expected %s" % (what, got2, exp)]
+    # an absolute path among the entries: refused, by a fresh object and by one that read a pre-productmd file before
+    ini.p.set("checksums", "/mnt/tree/os/images/boot.iso", "sha256:" + "0" * 64)
+    bad = ini.text()
+    for label, first in (("a fresh object", None), ("an object that read a pre-productmd treeinfo before", LEGACY)):
+        tr = TreeInfo()
+        if first:
+            tr.loads(first)
+        try:
+            tr.loads(bad)
+            return ["%s plus an absolute path: loaded by %s: %s" % (what, label, {k: tuple(v) for k, v in tr.checksums.checksums.items()})]
+        except ValueError:
+            pass
+        except Exception as exc:
+            return ["%s plus an absolute path: %s raised %s: %s" % (what, label, type(exc).__name__, exc)]
+    # the same file read by an object that read ANOTHER file before: every path maps to what THIS file says
+    tr = TreeInfo()
+    tr.loads(LEGACY)
+    tr.loads(text)
+    gotr = {k: tuple(v) for k, v in tr.checksums.checksums.items()}
+    if gotr != exp:
+        return ["%s: read by an object that read another treeinfo before: %s, this file says %s" % (what, gotr, exp)]
     return []
 
 
@@ -260,7 +295,8 @@ def eval_addchecksum(case):
     for i, ev in enumerate(case["hist"]):
         before = dict(img.checksums)
         try:
-            out = img.add_checksum("/root", ev["t"], vals[ev["v"]])
+            # algorithm names are given as callers spell them: lower case, or capitals in one rotation of three
+            out = img.add_checksum("/root", ev["t"].upper() if case.get("rot", 0) % 3 == 1 else ev["t"], vals[ev["v"]])
             out = {v: k for k, v in vals.items()}.get(out, "?%r" % (out,))
         except ValueError:
             out = "ValueError"
@@ -272,7 +308,7 @@ def eval_addchecksum(case):
             if img.checksums.get(t) != v:
                 return ["add_checksum history %s step %d: recorded %s checksum %r replaced by %r"
                         % (json.dumps(case["hist"]), i, t, v, img.checksums.get(t))]
-    exp = {t: vals[v] for t, v in (case["cs"].items() if isinstance(case["cs"], dict) else [])}
+    exp = {(t.upper() if case.get("rot", 0) % 3 == 1 else t): vals[v] for t, v in (case["cs"].items() if isinstance(case["cs"], dict) else [])}
     if img.checksums != exp:
         return ["add_checksum history %s: checksums %s, model %s" % (json.dumps(case["hist"]), img.checksums, exp)]
     return []
@@ -310,7 +346,10 @@ def run(ctx):
     finally:
         shutil.rmtree(tmp, ignore_errors=True)
     ctx.evaluate(eval_section, gen(ctx, "sections"), label="section", chunk=40)
-    ctx.evaluate(eval_addchecksum, gen(ctx, "addchecksum", 4 if ctx.quick else 5), label="add_checksum", chunk=300)
+    hists = gen(ctx, "addchecksum", 4 if ctx.quick else 5)
+    for i, c in enumerate(hists):
+        c["rot"] = i + ctx.seed
+    ctx.evaluate(eval_addchecksum, hists, label="add_checksum", chunk=300)
 
 
 def replay(info):
